@@ -281,6 +281,11 @@ mod imp {
                             run_probes(&mut s, kind, op.int(1) as u64);
                         }
                     }
+                    "reseed" => {
+                        if run.get("hash_seed") != 0 {
+                            seam::set_hash_seed(op.int(0) as u64);
+                        }
+                    }
                     o => panic!("harness: unknown op {o}"),
                 });
                 out.ops_executed += 1;
